@@ -110,6 +110,18 @@ def replay(r):
     from mindsdb_sql import parse_sql
     a = r['replay']['skip']
     L, P = SW.dialect_classes(a['dialect'])
+    if a.get('kind') == 'keyword-text':
+        from engines.earley import Earley
+        try:
+            acc = parse_sql(a['text'], a['dialect']) is not None
+        except Exception:  # noqa
+            acc = False
+        try:
+            sent = Earley(P).recognise([t.type for t in L().tokenize(re.sub(r'[\s;]+$', '', a['text']))])
+        except Exception:  # noqa
+            sent = False
+        print('native replay now: reproduced=%s accepted=%s sentence=%s' % (acc and not sent, acc, sent))
+        return 1 if (acc and not sent) else 0
     g = gaps_not_skippable(L, re.sub(r'[\s;]+$', '', a['text']))
     try:
         acc = parse_sql(a['text'], a['dialect']) is not None
@@ -117,3 +129,76 @@ def replay(r):
         acc = False
     print('native replay now: reproduced=%s accepted=%s skipped=%r' % (bool(g) and acc, acc, g[:1]))
     return 1 if (g and acc) else 0
+
+
+# ---- whole texts with a keyword where a name stands ------------------------------------------------------------------------------------
+# SYMTOK substitutes tokens in token STREAMS (the text handed to parse_sql is a stand-in), so anything parse_sql does with the TEXT before the
+# lexer runs - a shortcut for one statement kind, say - is outside its view.  Here the short sentences of the live grammar are written out,
+# every name in them is replaced by every word token of the live lexer (reserved words, word operators), and the real parse_sql on that text
+# may accept only what the Earley oracle derives from the real lexer's token types of the same text.
+
+def _kw_job(args):
+    d, tier_quick = args
+    import warnings
+    warnings.filterwarnings('ignore')
+    from engines.earley import Earley
+    from engines.sentences import shortest_sentences
+    from engines.symtok import representatives
+    from mindsdb_sql import parse_sql
+    L, P = SW.dialect_classes(d)
+    earley = Earley(P)
+    rep, lexemes = representatives(L)
+    words = sorted({lx for t, lx in lexemes.items() if t not in ('ID',) and re.fullmatch(r'[A-Za-z_]+(?: [A-Za-z_]+)*', lx)})
+    sents, seen = [], set()
+    from harness import c02u2
+    dv = c02u2.env_names(d)[0]          # shortest derivations that prefer ID over keyword terminals: name positions hold names
+    cands = [types for p, types in shortest_sentences(P)]
+    for p in dv.prods:
+        if p.name not in dv.ctx:
+            continue
+        try:
+            pre, suf = dv.ctx[p.name]
+            cands.append(list(pre) + dv.root_trees(p, [0] * len(dv.n_alternatives(p))).tokens() + list(suf))
+        except Exception:  # noqa
+            continue
+    for types in cands:
+        if 1 < len(types) <= (5 if tier_quick else 6) and 'ID' in types and tuple(types) not in seen:
+            seen.add(tuple(types))
+            sents.append(list(types))
+    n, bad = 0, []
+    for types in sents:
+        for i, t in enumerate(types):
+            if t != 'ID':
+                continue
+            for w in words:
+                for w_ in (w, w.lower()):
+                    text = ' '.join(w_ if j == i else lexemes.get(x, x) for j, x in enumerate(types))
+                    n += 1
+                    try:
+                        ok = parse_sql(text, d) is not None
+                    except Exception:  # noqa
+                        ok = False
+                    if not ok:
+                        continue
+                    try:
+                        own = [tk.type for tk in L().tokenize(re.sub(r'[\s;]+$', '', text))]
+                        sentence = earley.recognise(own)
+                    except Exception:  # noqa
+                        sentence = False
+                    if not sentence:
+                        bad.append(text)
+    return d, n, len(sents), len(words), bad
+
+
+def add_keyword_texts(run, tier):
+    import multiprocessing as mp
+    with mp.get_context('fork').Pool(3) as pool:
+        res = pool.map(_kw_job, [(d, tier == 'quick') for d in SW.DIALECTS])
+    for d, n, ns, nw, bad in res:
+        run.validated += n
+        if bad:
+            bad.sort(key=len)
+            run.counterexample('accept-non-sentence-text:%s' % d, '%s: parse_sql accepts %r although the token stream the lexer gives for it is not a sentence of the grammar (%d texts, e.g. %s)'
+                               % (d, bad[0], len(bad), bad[1:4]), {'skip': {'dialect': d, 'text': bad[0], 'kind': 'keyword-text'}}, True)
+        run.ob('keyword-where-a-name-stands:%s:%d texts (%d short sentences of the live grammar x name positions x %d word tokens x 2 letter cases)' % (d, n, ns, nw),
+               'counterexample' if bad else 'discharged', None)
